@@ -104,8 +104,10 @@ func c06Scalar(r *hx.Run, words []string, indent string, allowNonK bool) (text s
 	return text, style, inK
 }
 
-var c06Exprs = [][]string{{"up"}, {"up", "==", "0"}, {"sum(foo)", "by", "(job)"}, {"rate(http_requests_total[5m])", ">", "10"}, {"foo", "/", "bar", "*", "100"}, {"absent(up)"}, {"up", "==", "0", "#", "inline", "promql", "comment"}}
-var c06Texts = [][]string{{"static"}, {"some", "longer", "text", "here"}, {"value", "is", "{{", "$value", "}}"}, {"a:b", "c#d"}, {"it's", "quoted"}, {"Ticket", "#", "{{", "$value", "}}", "open"}, {"page", "#1", "of", "#", "2"}}
+var c06Exprs = [][]string{{"up"}, {"up", "==", "0"}, {"sum(foo)", "by", "(job)"}, {"rate(http_requests_total[5m])", ">", "10"}, {"foo", "/", "bar", "*", "100"}, {"absent(up)"}, {"up", "==", "0", "#", "inline", "promql", "comment"},
+	{"up{job=\"é\"}", "==", "0"}, {"sum(föö)", "by", "(jöb)"}, {"up{\"日本\"=\"x\"}", ">", "0"}}
+var c06Texts = [][]string{{"static"}, {"some", "longer", "text", "here"}, {"value", "is", "{{", "$value", "}}"}, {"a:b", "c#d"}, {"it's", "quoted"}, {"Ticket", "#", "{{", "$value", "}}", "open"}, {"page", "#1", "of", "#", "2"},
+	{"größe", "ist", "{{", "$value", "}}"}, {"日本語", "text", "here"}, {"naïve", "café", "#", "x"}}
 
 func c06Gen(r *hx.Run, allowNonK bool) c06Case {
 	rr := r.Rng
